@@ -128,10 +128,11 @@ func c15Run(c *Ctx, cs c15Case, count bool) {
 	srcVals := c15Values(cs.SrcLen, cs.SrcMask, "s")
 	if cs.SrcMixed {
 		pa := StackAlias(stackage.And().Push("pa"))
-		mixed := []any{stackage.Or().Push("in"), StackAlias(stackage.And().Push("al")), &pa, stackage.Cond("k", stackage.Eq, "v")}
+		// Stacks, aliases, a Condition - and typed nil pointers, which are elements like any other value
+		mixed := []any{stackage.Or().Push("in"), StackAlias(stackage.And().Push("al")), &pa, stackage.Cond("k", stackage.Eq, "v"), (*int)(nil), (*stackage.Stack)(nil), (*StackAlias)(nil)}
 		for i := 1; i < len(srcVals); i += 2 {
 			if srcVals[i] != nil {
-				srcVals[i] = mixed[(i/2+cs.SrcLen)%len(mixed)]
+				srcVals[i] = mixed[(i/2+cs.SrcLen+2*cs.DstLen+cs.DstCap)%len(mixed)] // which one varies with the case, so that every kind meets every configuration
 			}
 		}
 	}
